@@ -28,6 +28,7 @@ type Job struct {
 	NWorkers  int    `json:"nworkers"`
 	BudgetSec int    `json:"budget_sec"`
 	MaxRuns   int    `json:"max_runs"`
+	RunOffset int    `json:"run_offset"`
 	Out       string `json:"out"`
 	Replay    string `json:"replay,omitempty"`   // replay this file only
 	Minimise  bool   `json:"minimise,omitempty"` // minimise violations found
@@ -251,8 +252,8 @@ func TestVerif(t *testing.T) {
 	proj := map[uint64]bool{}
 	states := map[uint64]bool{}
 	seenViol := map[string]bool{}
-	for run := 0; ; run++ {
-		if job.MaxRuns > 0 && run >= job.MaxRuns {
+	for run := job.RunOffset; ; run++ {
+		if job.MaxRuns > 0 && run-job.RunOffset >= job.MaxRuns {
 			break
 		}
 		if time.Since(start) > time.Duration(job.BudgetSec)*time.Second {
